@@ -150,11 +150,13 @@ class World:
         if name.startswith('sync.') or name.startswith('bytes.') or name.startswith('bufio.') or name.startswith('os.'):
             self.struct_sorts[name] = (self.Opaque, None)
             return self.Opaque
+        sid = len(self.struct_sorts)
         dt = z3.Datatype('S_' + re.sub(r'[^A-Za-z0-9_]', '_', name))
         flds = []
         for i, f in enumerate(e['fields']):
-            flds.append(('f%d_%s' % (i, f['name']), self.sort(f['type'])))
-        dt.declare('mk', *flds)
+            # constructor and accessor names are unique per sort: SMT-LIB text cannot disambiguate overloaded ones
+            flds.append(('s%d_f%d_%s' % (sid, i, f['name']), self.sort(f['type'])))
+        dt.declare('mk_s%d' % sid, *flds)
         s = dt.create()
         self.struct_sorts[name] = (s, e)
         return s
